@@ -13,6 +13,13 @@ groups — `Cfg.mf`: `RewriteSender` / `RewriteRcpt` for any recipients / `Rewri
 source and destination-block modifiers failing in the middle of the transaction), every
 envelope (any list of recipients, repeated ones included), both body paths, and every completion
 order of the goroutines of every `runAndMergeResults` call (`Ord.fair`: the oracle only permutes).
+Any number of messages in flight on the same pipeline object, their commands interleaved in any
+order (`multi`, `C06_transactions_independent`): each of them ends exactly as `run` says for it alone,
+so every theorem below holds for each of the overlapping transactions.  The envelope sender is not an
+input of the model: it selects the source block (`Cfg.source`, `Cfg.block`, `Cfg.route` - routing is
+C04's business) and is an argument of the checks (whose verdicts are the parameter `Cfg.v`); the null
+reverse-path `<>` is a sender like any other (`mailFromReceived`, not `mailFrom != ""`, tells
+`checkStates` whether MAIL was seen).
 
 The model (`Model/CheckRunner.lean`) mirrors the tree with the C06 `fix:` commits.
 `Cfg.WF` (no block lists the same check twice) is needed for the each-stage-once theorems only.
@@ -997,6 +1004,147 @@ theorem C06_only_applicable_checks_called (o : Ord) (ho : o.fair) (cfg : Cfg) (m
           rw [← this]
           exact List.mem_map.mpr ⟨x, hx, rfl⟩
 
+/-! ## several messages on one pipeline: transactions are independent -/
+
+theorem stepN_closed (t : TxIn) (ob : Obs) : ∀ n, t.stepN n (.closed ob) = .closed ob
+  | 0 => rfl
+  | n + 1 => by simp [TxIn.stepN, TxIn.step, stepN_closed t ob n]
+
+theorem stepN_add (t : TxIn) : ∀ (a b : Nat) (s : TxSt), t.stepN (a + b) s = t.stepN b (t.stepN a s)
+  | 0, b, s => by simp [TxIn.stepN]
+  | a + 1, b, s => by
+    have : a + 1 + b = (a + b) + 1 := by omega
+    rw [this]
+    simp only [TxIn.stepN]
+    exact stepN_add t a b _
+
+/-- What the transaction shows once the RCPT phase is over. -/
+def closeTx (t : TxIn) (d : Dlv) (done : List (Rcpt × Bool)) : Obs :=
+  if done.all (fun x => x.2) then ⟨false, done, none, d⟩
+  else ⟨false, done, some (bodyOf t.m t.o t.cfg d).2, (bodyOf t.m t.o t.cfg d).1⟩
+
+theorem stepN_succ (t : TxIn) (n : Nat) (s : TxSt) : t.stepN (n + 1) s = t.stepN n (t.step s) := rfl
+
+theorem step_rcpts_cons (t : TxIn) (d : Dlv) (done : List (Rcpt × Bool)) (r : Rcpt) (rest : List Rcpt) :
+    t.step (.rcpts d done (r :: rest)) =
+      .rcpts (addRcpt t.o t.cfg d r).1 (done ++ [(r, (addRcpt t.o t.cfg d r).2)]) rest := rfl
+
+theorem step_rcpts_nil (t : TxIn) (d : Dlv) (done : List (Rcpt × Bool)) :
+    t.step (.rcpts d done []) = .closed (closeTx t d done) := by
+  simp only [TxIn.step, closeTx]
+  split <;> rfl
+
+theorem step_fresh (t : TxIn) :
+    t.step .fresh = if (start t.o t.cfg).2 then .closed ⟨true, [], none, (start t.o t.cfg).1⟩
+      else .rcpts (start t.o t.cfg).1 [] t.rcpts := rfl
+
+/-- The remaining RCPT commands and DATA, one command at a time, are `addAll` followed by the body stage. -/
+theorem stepN_rcpts (t : TxIn) : ∀ (todo : List Rcpt) (d : Dlv) (done : List (Rcpt × Bool)),
+    t.stepN (todo.length + 1) (.rcpts d done todo) =
+      .closed (closeTx t (addAll t.o t.cfg d todo).1 (done ++ (addAll t.o t.cfg d todo).2))
+  | [], d, done => by
+    rw [List.length_nil, Nat.zero_add, stepN_succ, step_rcpts_nil]
+    simp [TxIn.stepN, addAll]
+  | r :: rest, d, done => by
+    rw [List.length_cons, stepN_succ, step_rcpts_cons, stepN_rcpts t rest]
+    simp [addAll, List.append_assoc]
+
+/-- **Command by command = the whole transaction**: MAIL, every RCPT and DATA issued one at a time
+(with anything happening in between on other messages) give exactly `run`. -/
+theorem C06_step_run (t : TxIn) : t.stepN (t.rcpts.length + 2) .fresh = .closed (run t.o t.cfg t.m t.rcpts) := by
+  have : t.rcpts.length + 2 = (t.rcpts.length + 1) + 1 := by omega
+  rw [this, stepN_succ, step_fresh]
+  unfold run
+  by_cases hs : (start t.o t.cfg).2 = true
+  · simp [hs, stepN_closed]
+  · simp only [hs, Bool.false_eq_true, if_false]
+    rw [stepN_rcpts t t.rcpts]
+    simp only [List.nil_append, closeTx]
+
+theorem C06_step_run_ge (t : TxIn) (n : Nat) (h : t.rcpts.length + 2 ≤ n) :
+    t.stepN n .fresh = .closed (run t.o t.cfg t.m t.rcpts) := by
+  obtain ⟨k, rfl⟩ : ∃ k, n = (t.rcpts.length + 2) + k := ⟨n - (t.rcpts.length + 2), by omega⟩
+  rw [stepN_add, C06_step_run, stepN_closed]
+
+theorem multiStep_length (txs : List TxIn) (sts : List TxSt) (i : Nat) : (multiStep txs sts i).length = sts.length := by
+  unfold multiStep
+  split <;> simp
+
+theorem multiStep_get (txs : List TxIn) (sts : List TxSt) (i j : Nat) :
+    (multiStep txs sts i)[j]? =
+      if i = j then (match txs[j]?, sts[j]? with
+        | some t, some s => some (t.step s)
+        | _, s => s) else sts[j]? := by
+  unfold multiStep
+  by_cases hij : i = j
+  · subst hij
+    simp only [if_true]
+    split
+    · rename_i t s ht hs
+      have hlt : i < sts.length := by
+        rcases Nat.lt_or_ge i sts.length with h | h
+        · exact h
+        · rw [List.getElem?_eq_none h] at hs; cases hs
+      rw [List.getElem?_set, ht]
+      simp [hlt] at hs ⊢
+      rw [hs]
+    · rename_i h
+      split
+      · rename_i t s ht hs
+        exact absurd hs (h t s ht)
+      · rfl
+  · simp only [hij, if_false]
+    split
+    · simp [hij]
+    · rfl
+
+/-- Frame property of the interleaved execution: after any schedule the state of message `j` is
+its own commands applied to its own starting state - `count j` of them -, whatever the other
+messages are and did. -/
+theorem multi_frame (txs : List TxIn) (j : Nat) (t : TxIn) (ht : txs[j]? = some t) :
+    ∀ (sched : List Nat) (sts : List TxSt) (s : TxSt), sts[j]? = some s →
+      (sched.foldl (multiStep txs) sts)[j]? = some (t.stepN (sched.count j) s)
+  | [], sts, s, hs => by simpa [TxIn.stepN] using hs
+  | i :: rest, sts, s, hs => by
+    simp only [List.foldl_cons]
+    by_cases hij : i = j
+    · subst hij
+      have h1 : (multiStep txs sts i)[i]? = some (t.step s) := by
+        rw [multiStep_get]; simp [ht, hs]
+      rw [multi_frame txs i t ht rest _ _ h1]
+      simp [TxIn.stepN]
+    · have h1 : (multiStep txs sts i)[j]? = some s := by
+        rw [multiStep_get]; simp [hij, hs]
+      rw [multi_frame txs j t ht rest _ _ h1]
+      have : (i == j) = false := by simpa using hij
+      simp [List.count_cons, this]
+
+/-- **Transactions are independent.**  Any number of messages in flight on the same pipeline, their
+commands interleaved in any order: a message all of whose commands were issued (`MAIL`, its RCPTs,
+`DATA`: `count j ≥ |rcpts| + 2`; surplus entries do nothing) ends with exactly the outcome `run`
+gives for it alone - replies, per-recipient results, flag, hand-overs and call log -, so every
+theorem of this file about `run` holds for each of the overlapping transactions. -/
+theorem C06_transactions_independent (txs : List TxIn) (sched : List Nat) (j : Nat) (t : TxIn)
+    (ht : txs[j]? = some t) (hc : t.rcpts.length + 2 ≤ sched.count j) :
+    (multi txs sched)[j]? = some (.closed (run t.o t.cfg t.m t.rcpts)) := by
+  unfold multi
+  have h0 : (txs.map (fun _ => TxSt.fresh))[j]? = some TxSt.fresh := by simp [ht]
+  rw [multi_frame txs j t ht sched _ _ h0, C06_step_run_ge t _ hc]
+
+/-- The outcome of a transaction depends neither on what the other transactions on the pipeline
+are nor on how the commands are interleaved. -/
+theorem C06_outcome_independent_of_other_transactions (txs txs' : List TxIn) (sched sched' : List Nat)
+    (j j' : Nat) (t : TxIn) (ht : txs[j]? = some t) (ht' : txs'[j']? = some t)
+    (hc : t.rcpts.length + 2 ≤ sched.count j) (hc' : t.rcpts.length + 2 ≤ sched'.count j') :
+    (multi txs sched)[j]? = (multi txs' sched')[j']? := by
+  rw [C06_transactions_independent txs sched j t ht hc, C06_transactions_independent txs' sched' j' t ht' hc']
+
+/-- Also half-way: after any prefix of any schedule a message is where its own commands put it. -/
+theorem C06_transaction_state_is_its_own (txs : List TxIn) (sched : List Nat) (j : Nat) (t : TxIn)
+    (ht : txs[j]? = some t) : (multi txs sched)[j]? = some (t.stepN (sched.count j) .fresh) := by
+  unfold multi
+  exact multi_frame txs j t ht sched _ _ (by simp [ht])
+
 /-! ## T1: facts regenerated from the current tree (see tools/extract/c06calls.go) -/
 
 /-- The steps of a body path that belong to its check phase (step codes 1-4, 9 = a `checkBody`
@@ -1123,5 +1271,32 @@ example : (∀ c, exCfg.v c .conn ≠ .rej ∧ exCfg.v c .sender ≠ .rej) ∧
 objects for it in one go (and call each), which the log counts as the same call twice. The
 property's placements put a check in several *blocks*, never twice in one. -/
 example : ¬ (run idOrd { exCfg with global := [0, 0] } .smtp [1]).final.cr.done.Nodup := by decide
+
+def exT0 : TxIn := ⟨idOrd, exCfg, .lmtp, [1, 3, 2]⟩
+def exT1 : TxIn := ⟨idOrd, { exCfg with q0 := true }, .smtp, [1]⟩
+def obsOf : Option TxSt → Option Obs
+  | some (TxSt.closed ob) => some ob
+  | _ => none
+def todoOf : Option TxSt → Option (List (Rcpt × Bool) × List Rcpt)
+  | some (TxSt.rcpts _ done todo) => some (done, todo)
+  | _ => none
+
+/-- Two messages in flight on `exCfg`'s pipeline (the second one pre-flagged, over SMTP, to a
+recipient of the other block), their eight commands interleaved: the schedule is complete for both
+(hypothesis of `C06_transactions_independent`), and each ends exactly as it does alone - the
+first one with recipient 3 refused and flagged by its own check, the second one flagged as handed
+over and nothing of the first one's verdicts.  Half-way (MAIL and one RCPT of the first message) it
+is where its own two commands put it. -/
+example : exT0.rcpts.length + 2 ≤ [0, 1, 0, 1, 0, 0, 1, 0].count 0 ∧
+    exT1.rcpts.length + 2 ≤ [0, 1, 0, 1, 0, 0, 1, 0].count 1 := by decide
+example : (obsOf (multi [exT0, exT1] [0, 1, 0, 1, 0, 0, 1, 0])[0]?).map (fun a => (a.rcpts, delivered .lmtp a)) =
+    some ([(1, false), (3, true), (2, false)], [1]) := by decide
+example : (obsOf (multi [exT0, exT1] [0, 1, 0, 1, 0, 0, 1, 0])[1]?).map (fun b => (b.rcpts, b.final.metaQ)) =
+    some ([(1, false)], true) := by decide
+example : (obsOf (multi [exT0, exT1] [0, 1, 0, 1, 0, 0, 1, 0])[1]?).map (fun b => handedOver .smtp b) =
+    some [(0, [1], true)] := by decide
+example : (obsOf (multi [exT0, exT1] [0, 1, 0, 1, 0, 0, 1, 0])[1]?).map (fun b => b.final.cr.done) =
+    some (run idOrd { exCfg with q0 := true } .smtp [1]).final.cr.done := by decide
+example : todoOf (multi [exT0, exT1] [0, 1, 0])[0]? = some ([(1, false)], [3, 2]) := by decide
 
 end MaddyVerif.C06
